@@ -192,6 +192,45 @@ CHECKS = {
             C_TIE + "clip/intlog2 are tie T.",
             "Coq proofs on hand models of picture_decode's tail and the call sites + differential run on re-packed extreme/random/dangling coefficient streams",
             "DESIGN.md 3 C09"),
+    "C01": (True,
+            "Theorems for unit lists of ANY length and ANY deterministic ordering matchers over a statement-by-statement model of the validator's "
+            "stream-level state machine (option-valued fields where the code tests presence): for individually valid data units, run = Accept <-> ten "
+            "independent rule checkers all hold (ends, offsets, identical headers, profile codes, version support+minimality, picture numbers mod 2^32 and "
+            "field parity, whole frames, fragments, level pattern, generic pattern); no rejection is a non-conformance exception; a stream of sequences is "
+            "accepted iff each is. Witnesses show the two crashes of the pinned code.",
+            C_TIE + "Matchers are abstract automata in the theorems and table dumps of the real Matcher in the correspondence run; a permissive level table lets tiny pictures carry real levels.",
+            "Coq product-automaton refinement proof + differential run on ~7700 real byte streams (exhaustive orderings up to length 4-5, structured mutations) + independent rule oracle",
+            "DESIGN.md 3 C01"),
+    "C10": (True,
+            "Theorems: the regenerated retained_state_fields are I/O-only and every State entry the stream model touches is erased by reset_state; a "
+            "concatenation is accepted iff each sequence is accepted alone (any number, any position), and the observed picture list of the concatenation is the "
+            "concatenation of the per-sequence lists. PARTIAL: picture CONTENT equality is compared by the differential run only.",
+            C_TIE + "Field lists are tie T (Gen/StateFields.v, incl. a shape check of reset_state).",
+            "Coq proofs on the stream model + regenerated state field lists + differential run on lists of up to 3-4 differing sequences with a non-conformant one at each position",
+            "DESIGN.md 3 C10"),
+    "C02": (True,
+            "Theorem (stage 1): for arbitrary unit lists (no validity hypothesis beyond positive slice counts) the stream-level state machine never ends in a "
+            "non-conformance exception. PARTIAL: header- and slice-level totality and the 64 exception classes' explain/offending_offset/bitstream_viewer_hint are "
+            "decided by byte-level mutation fuzzing of valid streams on the implementation (10 000 mutants per quick run, every error explained and located).",
+            C_TIE + "Declared sizes are capped in-process as the property allows.",
+            "Coq no-crash proof on the stream model + byte-level mutation run on the real validator with all reporting methods exercised",
+            "DESIGN.md 3 C02"),
+    "C21": (True,
+            "All five statements proved for ALL programs (dependent free monad: arbitrary data-dependent control flow), descriptions and default tables over a model "
+            "of the SerDes framework with Python's parent/child aliasing: serialise-then-deserialise returns the same results, consumes exactly the produced bits and "
+            "yields a description equal up to zero-padding/defaults; unused value -> UnusedTargetError; missing value -> KeyError/ListTargetExhausted unless a default; the "
+            "deserialiser only ever extends the root (second write = ReusedTarget); set_context_type keeps the tree consistent on every reachable state.",
+            C_TIE + "Self-contained bit-list I/O inside the model; strictly typed leaf values (duck-typed cases filtered).",
+            "Coq proofs by induction on free-monad programs + 2000 random program/description cases per run against the real Serialiser/Deserialiser with real fixeddict types",
+            "DESIGN.md 3 C21"),
+    "C06": (True,
+            "Theorems at primitive and step level: every primitive (incl. reads past a bounded block's end, byte-align and bounded-block padding) written back reproduces "
+            "exactly the consumed bits; refutation witness for the pinned padding/auxiliary program and round trip of the repaired one. PARTIAL: the whole-program converse "
+            "(des then ser = identity on bytes) is NOT proved; at program level the property is decided by the differential run over the real parse_stream on 1300+ "
+            "parseable byte strings (conformant streams, field-level and bit-level mutants).",
+            C_TIE + "Model of the parse_info+padding unit as a prog term is compared on 80 byte strings per run.",
+            "Coq primitive/step lemmas + differential des->ser->des run on the real bitstream description of mutated streams",
+            "DESIGN.md 3 C06"),
 }
 
 NOT_YET = "check not built yet (work in progress; see DESIGN.md section 7 work order)"
